@@ -31,21 +31,21 @@ META.update({
     "C03": {"rule": ADSR_RULE, "assumptions": COMMON + ["slope bound 1.005*S*c*x*(1+2^-22)+|ds|+4ulp with S=1.81062 (attack), 4.07463 (decay/release), c the span of the segment, x the fraction of the phase one tick covers"]},
     "C04": {"rule": MIDI_RULE + "; workload: note-on / note-off / velocity-0 / All Notes Off on the listened channel, pools of 1..128 notes, explicit and running status, priority and retrigger switched at random, at most 32 outstanding note-ons; a key held under melodies of 250-70000 notes; the 32-entry buffer filled with distinct / identical keys and re-struck; pattern-repeat storms of 2^8 ... 2^20 (thorough: 2^32) note pairs (also of incomplete, foreign-channel and real-time-only messages), also with a key struck just before the count is reached, every storm followed by two fresh keys of which the newer is released, and 2^8-d / 2^16-d pairs (d = 0..9) followed by a rolled chord released newest-first", "assumptions": COMMON + ["histories are cut before a 33rd outstanding note-on (the property is stated up to 32)", "CC 123 is All Notes Off for any value byte"]},
     "C05": {"rule": MIDI_RULE + "; workload: the C04 streams with edge polls interleaved (sparse at several rates, and strict = both edges after every message), note floods beyond 32 outstanding note-ons (observed-gate mode), poll-free bursts of 254-513 messages and pattern-repeat storms of 2^8 ... 2^20 (thorough: 2^32) messages between two polls", "assumptions": COMMON + ["edge getters are polled on implementation and reference at the same instant"]},
-    "C06": {"rule": MIDI_RULE + "; workload: 24 well-formed base streams x every split point x 16 channels with real-time bytes inserted, random insertions, unstructured byte streams in four styles (uniform, status-heavy, data-heavy running status, own-channel with system bytes), universal SysEx messages with arbitrary parameter bytes and device ids, RPN/NRPN/data-entry sequences, channel-mode controllers 120-127 followed by foreign-channel traffic, pattern-repeat storms", "assumptions": COMMON + ["pitch-bend scaling is taken from a table read from a fresh receiver (the scaling itself is judged by C18); framing decides which bytes form the value", "histories are cut before a 33rd outstanding note-on", "0xF9/0xFD are treated as real-time (transparent), 0xF4/0xF5 as system common (cancel running status)"]},
-    "C18": {"rule": MIDI_RULE + "; workload: 16 channels x 128 controllers x 128 values (explicit + running status, listened + foreign channel, foreign-channel traffic after every controller number), all 16384 pitch-bend values ascending/descending, pitch-bend values in other orders on fresh receivers (MSB-only wheels, constant LSB, repeats, alternating extremes, random order), mode setters (priority / retrigger, each really changing the mode) dropped between arbitrary bytes, scaling tables, controllers interleaved with note traffic, RPN/NRPN/data-entry sequences, universal SysEx messages (master volume, GM on/off, ...) followed by a controller reset, pattern-repeat storms", "assumptions": COMMON + ["power-on defaults are read from a freshly constructed receiver at run time"]},
+    "C06": {"rule": MIDI_RULE + "; workload: 24 well-formed base streams x every split point x 16 channels with real-time bytes inserted, random insertions, unstructured byte streams in four styles (uniform, status-heavy, data-heavy running status, own-channel with system bytes), universal SysEx messages with arbitrary parameter bytes and device ids, SysEx payloads of 127-600 bytes, runs of 23-1000 real-time bytes inside a message, RPN/NRPN/data-entry sequences, channel-mode controllers 120-127 followed by foreign-channel traffic, pattern-repeat storms", "assumptions": COMMON + ["pitch-bend scaling is taken from a table read from a fresh receiver (the scaling itself is judged by C18); framing decides which bytes form the value", "histories are cut before a 33rd outstanding note-on", "0xF9/0xFD are treated as real-time (transparent), 0xF4/0xF5 as system common (cancel running status)"]},
+    "C18": {"rule": MIDI_RULE + "; workload: 16 channels x 128 controllers x 128 values (explicit + running status, listened + foreign channel, foreign-channel traffic after every controller number), all 16384 pitch-bend values ascending/descending, pitch-bend values in other orders on fresh receivers (MSB-only wheels, constant LSB, repeats, alternating extremes, random order), mode setters (priority / retrigger, each really changing the mode) dropped between arbitrary bytes, scaling tables, controllers interleaved with note traffic, RPN/NRPN/data-entry sequences, universal SysEx messages (master volume, GM on/off, ...) followed by a controller reset, other channels' messages with real-time bytes inside them right after own controller / pitch-bend messages, pattern-repeat storms", "assumptions": COMMON + ["power-on defaults are read from a freshly constructed receiver at run time"]},
 })
 
 QUANT_RULE = ("allow/forbid/convert histories on the real quantizer with a shadow scale: directed convert-forbid-convert of the same input in every octave and pitch class, slow ramps, "
               "sub-hysteresis noise around every chromatic boundary, jumps, random scale edits (incl. forbid-everything, duplicated note arguments, argument lists of 13-50 entries in which a note is named only late, forbid/allow of the held pitch class back to back), exact repeats of earlier inputs and inputs a few ulps away from them, inputs in and around [0,10] V incl. NaN/inf, 7*10^4-conversion runs and edit storms of 2^8 ... 2^20 (thorough: 2^31, 2^32) edit calls between two conversions; "
               "distinct_nontrivial = distinct (octave, path {kept by window, outside window, cached note forbidden, no history}, pitch class, scale-size bucket) classes observed")
-GLIDE_RULE = ("set_time/process histories on the real processor: clean steps over the (fs,t) plane (both signs, offsets), dead-band sequences (drift chains, flapping, jumps, around the band edge) with the pole estimated from the outputs after every call, "
+GLIDE_RULE = ("set_time/process histories on the real processor: clean steps over the (fs,t) plane (both signs, offsets; zero times of either sign), dead-band sequences (drift chains, flapping, jumps, around the band edge) with the pole estimated from the outputs after every call, "
               "and mixed piecewise-constant / noise inputs at signal scales from 1e-30 to 3e38 with set_time changes at arbitrary points incl. switches to <= 4/fs in mid-glide, A-B-A' schedules without a sample in between, glides frozen by feeding the output back, full-scale swings, (C13, C17) holds at +-f32::MAX and 1 ulp, 8 ulps, 0.08 %, 3 % below it over 4 rates x 6 times followed by ordinary levels (known finding F11: the state overflows there), 7*10^4 set_time calls; distinct_nontrivial = distinct (decade of t*fs, changed-mid-glide?, specified region?) and (plane cell) classes observed")
-RIBBON_RULE = ("sample histories on real controllers (608 sample rates instantiated: every multiple of 500 Hz up to 286 kHz + audio rates + 16 rates just below a step of the capacity helper; quick: the 10 standard ones, all <= 20 kHz and 12 sampled others; thorough: all) and random resistor triples: presses of length L-2..L+2, 10L, taps shorter than L separated by 1..3 out-of-range samples, glitches, samples exactly on the boundary and 1-3 ulps below it, pull-ups from the divider resistance up to 10^12 Ohm, non-integer sample rates (buffer sized for the integer part), buffers rounded up to 64/256/1024/4096 slots, presses held at the top of the range at every selected rate, slides and noisy presses, one creeping press of 4*10^5 samples, 7*10^4 presses, one contact of 2^24 (thorough: 2^31, 2^32) samples, "
+RIBBON_RULE = ("sample histories on real controllers (608 sample rates instantiated: every multiple of 500 Hz up to 286 kHz + audio rates + 16 rates just below a step of the capacity helper; quick: the 10 standard ones, all <= 20 kHz and 12 sampled others; thorough: all) and random resistor triples: presses of length L-2..L+2, 10L, taps shorter than L separated by 1..3 out-of-range samples, glitches, samples exactly on the boundary and 1-3 ulps below it, pull-ups from the divider resistance up to 10^12 Ohm, non-integer sample rates (buffer sized for the integer part), buffers rounded up to 64/256/1024/4096 slots, presses held at the top of the range at every selected rate, slides and noisy presses, one creeping press of 4*10^5 samples, controllers polled for 10^5 samples (idle and in contact) before presses of exactly L-1 and L samples, 7*10^4 presses, one contact of 2^24 (thorough: 2^31, 2^32) samples, "
                "edge polls strict (after every sample) and sparse, observation twins (getters read after every sample vs only at sparse checkpoints); distinct_nontrivial = distinct (event, rate, previous-run-length bucket, poll mode) and influence-probe (rate, region, wrapped?, noisy?) classes observed")
 
 META.update({
     "C07": {"rule": QUANT_RULE, "assumptions": COMMON + ["the shadow scale is maintained from the allow/forbid calls issued (note arguments > 11 act as 11; a forbid that would empty the scale keeps the last note of its argument) and compared with is_allowed() after every edit"]},
-    "C08": {"rule": "fresh real quantizer per conversion (scale set up by forbidding the complement, and by four other edit routes: forbid-everything fallback, one call per note, calls naming a note twice): all 4095 non-empty scales x {boundary grid of every half- and third-semitone point of 0..10 V +-{0,1,4,9,11,40} uV; special and out-of-range inputs incl. NaN/inf; a microvolt stride (quick: 997 uV seed-offset stride, thorough: every one of the 10,000,001 microvolt inputs)}; oracle = nearest allowed note in f64 with the one-semitone-below bucket rule and 10 uV tie band, plus monotonicity over rising inputs; the first conversion after every scale edit inside the convert/edit histories of C07/C09 is judged by the same oracle. distinct_nontrivial = distinct (scale, number of distinct notes reported) pairs",
+    "C08": {"rule": "fresh real quantizer per conversion (scale set up by forbidding the complement, and by five other edit routes: forbid-everything fallback, one call per note, calls naming a note twice, up to three members too many forbidden and allowed again by one call naming each twice): all 4095 non-empty scales x {boundary grid of every half- and third-semitone point of 0..10 V +-{0,1,4,9,11,40} uV; special and out-of-range inputs incl. NaN/inf; a microvolt stride (quick: 997 uV seed-offset stride, thorough: every one of the 10,000,001 microvolt inputs)}; oracle = nearest allowed note in f64 with the one-semitone-below bucket rule and 10 uV tie band, plus monotonicity over rising inputs; the first conversion after every scale edit inside the convert/edit histories of C07/C09 is judged by the same oracle. distinct_nontrivial = distinct (scale, number of distinct notes reported) pairs",
             "assumptions": COMMON + ["candidate notes 0..131 (octave 10 complete)", "NaN may be treated as either end of the range"]},
     "C09": {"rule": QUANT_RULE, "assumptions": COMMON + ["outside the window the expected result is what a fresh instance of the real quantizer with the same scale reports (the history-free rule itself is judged by C08)", "inputs within 2 uV of a window edge may go either way"]},
     "C19": {"rule": QUANT_RULE, "assumptions": COMMON + ["'two f32 ulps' is taken at the magnitude of the largest of |input|, |stairstep|, |fraction|", "chromatic fraction range widened by 10 uV (integer microvolt note grid)"]},
